@@ -1,0 +1,5 @@
+//go:build !verif
+
+package quickfix
+
+func verifPoint(string) {}
